@@ -29,7 +29,10 @@ Hj(r, j) == Nx(Nx((r + 131 * j) % 65537))
 \* key set number k: position i holds key 10 + ((i + 2k) mod (V + 3)): consecutive sets share keys at shifted positions
 KeySet(P, k) == [i \in 1..P.V |-> 10 + ((i + 2 * k) % (P.V + 3))]
 GasOf(r) == <<r % 256, (r \div 7) % 256, (r \div 3) % 256, r % 251, (r * 3) % 256, r % 199, r % 97, 0>>
-Dg(s, i, xx, z, e, u) == [s |-> s, i |-> i, x |-> xx, z |-> z, e |-> e, u |-> u]
+\* r: the digest's result kind (ok or one of the six errors); the statistics sum the refine load of EVERY digest
+\* whatever its result (13.9, 13.16), so the specification never looks at r - the driver sets it on the report
+Kinds == <<"ok", "out-of-gas", "panic", "bad-exports", "output-oversize", "bad-code", "code-oversize">>
+Dg(s, i, xx, z, e, u, k) == [s |-> s, i |-> i, x |-> xx, z |-> z, e |-> e, u |-> u, r |-> Kinds[(k % 7) + 1]]
 ValRec(b, t, p, d, g, a) == <<b, t, p, d, g, a>>
 
 Blk(P, slot, author, nt, pre, gs, as, avail, acc, k, adv) ==
@@ -43,9 +46,12 @@ PriorV == <<ValRec(3, 4, 1, 17, 2, 5), ValRec(0, 0, 0, 0, 0, 0), ValRec(1, 0, 2,
 PriorL == <<ValRec(1, 1, 1, 1, 1, 1), ValRec(2, 2, 2, 2, 2, 2), ValRec(0, 0, 0, 0, 0, 0), ValRec(5, 0, 5, 0, 5, 0), ValRec(7, 7, 7, 7, 7, 7), ValRec(8, 1, 8, 1, 8, 1)>>
 TauA == 30                     \* epoch 2, phase 6, rotation 7
 SlotsA == <<31, 32, 36, 37, 40, 44, 48, 61>>   \* same rotation / next rotation / epoch 3 first rotation / later / epoch 5
-ResA(k) == IF k = 0 THEN <<Dg(5, 1, 2, 30, 4, GasOf(1000))>>
-           ELSE <<Dg(5, 3, 1, 7, 0, GasOf(65000)), Dg(70000, 0, 0, 0, 0, GasOf(0)), Dg(5, 100, 20, 1000000, 300, <<255, 255, 255, 255, 1, 0, 0, 0>>)>>
-GA(slot, core, sigs, k) == [slot |-> slot, core |-> core, sigs |-> sigs, len |-> 1000 + 17 * core + k, nexp |-> 3 * core + k, res |-> ResA((core + k) % 2)]
+\* j rotates the result kinds through the digests, so that every kind meets non-zero i, x, z, e, u
+ResA(k, j) == IF k = 0 THEN <<Dg(5, 1 + j, 2, 30 + j, 4 + j, GasOf(1000 + j), j)>>
+              ELSE <<Dg(5, 3, 1, 7, 6 + j, GasOf(65000), j + 1), Dg(70000, 2, 3, 5, 7, GasOf(9), j + 2),
+                     Dg(5, 100, 20, 1000000, 300, <<255, 255, 255, 255, 1, 0, 0, 0>>, j + 3), Dg(9, 11, 13, 17, 19, GasOf(23 + j), j + 4)>>
+GA(slot, core, sigs, k) == [slot |-> slot, core |-> core, sigs |-> sigs, len |-> 1000 + 17 * core + k, nexp |-> 3 * core + k,
+                            res |-> ResA((core + k) % 2, slot + 2 * k + 3 * core + sigs[1])]
 SigsA == << <<0, 1>>, <<2, 5>>, <<0, 3, 4>>, <<1, 2, 3>> >>
 GsA(slot) ==
   << <<>> >>
@@ -87,7 +93,7 @@ Spread(n, k, r1, r2) ==
        IN [j \in 1..k |-> a + (j - 1) * g]
 SvcIds == <<0, 1, 5, 255, 256, 65536, 70000, 16777216, 2147483647>>
 GenDigests(r, n) == [j \in 1..n |-> LET q == Hj(r, j) IN
-                       Dg(SvcIds[(q % 9) + 1], q % 3000, (q \div 3) % 128, (q * 31) % 5000000, (q \div 5) % 3000, GasOf(q * 13 + j))]
+                       Dg(SvcIds[(q % 9) + 1], 1 + (q % 3000), 1 + ((q \div 3) % 128), 1 + ((q * 31) % 5000000), 1 + ((q \div 5) % 3000), GasOf(q * 13 + j), q \div 7)]
 GenBlock(P, s, r, maxCores) ==
   LET r1 == Nx(r) r2 == Nx(r1) r3 == Nx(r2) r4 == Nx(r3) r5 == Nx(r4) r6 == Nx(r5) r7 == Nx(r6) r8 == Nx(r7)
       jump == r1 % 10
